@@ -174,6 +174,18 @@ def hand_cases():
     # same-line map entries with comments
     out.append(prog("sameline_comments",
                     "stage S(\n    in  map x,\n    out int y,\n    src py \"s\",\n)\n\ncall S(\n    # about x\n    x = {\"a\": 1, \"b\": 2, \"c\": 3, \"d\": 4, \"e\": 5}, # trailing\n)\n"))
+    # a typed map of structs given as a literal whose values are whole results of pipeline calls
+    # (wider than the struct: narrowed on the way) next to values that need no change
+    out.append(prog("narrow_map_literal",
+                    "struct PAIR(\n    int a,\n    int b,\n)\n\nstage MAKE(\n    in  int x,\n    out int a,\n    out int b,\n    out int extra,\n    src py \"m\",\n)\n\n"
+                    "stage SINK(\n    in  map<PAIR> pairs,\n    out int n,\n    src py \"s\",\n)\n\n"
+                    "pipeline INNER(\n    in  int x,\n    out int a,\n    out int b,\n    out int extra,\n)\n{\n    call MAKE(\n        x = self.x,\n    )\n\n"
+                    "    return (\n        a     = MAKE.a,\n        b     = MAKE.b,\n        extra = MAKE.extra,\n    )\n}\n\n"
+                    "pipeline TOP(\n    in  int x,\n    out int n,\n)\n{\n    call INNER(\n        x = self.x,\n    )\n\n"
+                    "    call SINK(\n        pairs = {\n" +
+                    "".join("            \"k%d\": {\n                a: %d,\n                b: MAKE2.a,\n            },\n" % (i, i) for i in range(6)) +
+                    "            \"wide\": INNER,\n        },\n    )\n\n    call MAKE as MAKE2(\n        x = self.x,\n    )\n\n"
+                    "    return (\n        n = SINK.n,\n    )\n}\n\ncall TOP(\n    x = 1,\n)\n"))
     # a comment line inside a map literal followed by several entries on ONE source line
     out.append(prog("sameline_entries_after_comment",
                     "stage S(\n    in  map x,\n    in  map<int> y,\n    out int z,\n    src py \"s\",\n)\n\ncall S(\n    x = {\n        # about these entries\n"
